@@ -44,6 +44,14 @@ def run(tier, seed):
             p["ops"] += [{"op": "req", "name": "fz", "save": True, "req": {"type": "func", "fn": 0, "sources": [src, src], "params": [{"p": "zeta"}]}},
                          {"op": "req", "name": "fc", "save": True, "req": {"type": "func", "fn": 0, "sources": [src, src], "params": ["1/2"]}},
                          {"op": "req", "name": "cz", "save": True, "req": {"type": g.rng.choice(["cum", "agg"]), "source": "fz", "sources": ["fz"], "start": None}}]
+        window = g.rng.random() < 0.5
+        if window:
+            # a whole-run cumulative output and a windowed one (from the second time on) of the same source: the windowed
+            # one is kept with and without its sibling
+            src = g.rng.choice([o["name"] for o in p["ops"] if o["op"] == "req"][:2])
+            t0_, h_ = gen.Fraction(p["times"][0]), gen.Fraction(p["times"][2])
+            p["ops"] += [{"op": "req", "name": "cw", "save": g.rng.random() < 0.8, "req": {"type": "cum", "source": src, "start": None}},
+                         {"op": "req", "name": "cws", "save": True, "req": {"type": "cum", "source": src, "start": str(t0_ + h_)}}]
         if g.rng.random() < 0.6:
             at = min(i for i, o in enumerate(p["ops"]) if o["op"] == "req")
             p["ops"].insert(at, {"op": "setdefaults", "params": {k: "1/4" for k in pv}})
@@ -52,6 +60,8 @@ def run(tier, seed):
         picks = subsets if tier == "thorough" else g.rng.sample(subsets, min(4, len(subsets)))
         if chain and ["fc", "cz"] not in picks:
             picks = picks + [["fc", "cz"]]
+        if window and ["cws"] not in picks:
+            picks = picks + [["cws"]]
         solver_ok = (not p["nonlinear"]) or nsteps(p) <= 2
         # full evaluation (with the oracle on the implementation) ...
         q = dict(p)
@@ -72,7 +82,7 @@ def run(tier, seed):
             nontrivial.add(checklib.signature(p))
     return {"programs": progs, "explore": ex, "distinct_nontrivial": len(nontrivial),
             "rule": "models with 2-6 chained derived-output requests (flow, compartment, aggregate, cumulative, function, "
-                    "computed value), function outputs with a parameter used nowhere else, default parameters that differ from "
+                    "computed value), function outputs with a parameter used nowhere else, whole-run and windowed cumulative outputs of one source, default parameters that differ from "
                     "the supplied values; for each: whitelists (4 random subsets quick / all subsets thorough) compared with the "
                     "model; on the implementation bit-exact comparison (float.hex) of every kept value against the full "
                     "evaluation over whitelists, save-flag vectors, dependency-consistent declaration orders and "
